@@ -30,8 +30,8 @@ pub struct Span<'i> { _p: &'i str }
 #[verifier::external_body]
 #[derive(Clone, Copy)]
 pub struct Position<'i> { _p: &'i str }
-#[verifier::external_body]
-pub struct PestError { _p: () }
+#[derive(Debug)]
+pub struct PestError { pub _p: () }
 pub mod pest { pub use super::Span; pub use super::Position; }
 
 impl<'i> Pair<'i> {
